@@ -273,6 +273,70 @@ inline void oracle_C04(const Snap &a, const Snap &b, OracleOut &out) {
     oracle_counts(b, out, "C04");
 }
 
+// StatusAttrib::garbage_collection: removed set = closure of the marks (+ manifoldness rule), tracked handles designate the
+// same entity (by identity tokens) or are invalid
+inline void oracle_C04_status(const Snap &a, const Snap &b, const std::vector<std::string> &echo, const std::string &trk, OracleOut &out) {
+    if (!valid_for_c01(a)) return;
+    if (!refs_ok(b)) { out.fail("C04", "a stored handle is out of range after StatusAttrib::garbage_collection"); return; }
+    std::map<std::string, std::vector<int>> g; std::string cur;
+    for (size_t i = 2; i < echo.size(); ++i) { const std::string &t = echo[i];
+        if (t == "V" || t == "E" || t == "F" || t == "C" || t == "TV" || t == "THE" || t == "THF" || t == "TC") { cur = t; g[cur]; } else g[cur].push_back(std::stoi(t)); }
+    bool pm = echo[1] == "1";
+    std::set<int> dv, de, df, dc;
+    // pending deletions count as removed too
+    for (int v = 0; v < a.nv; ++v) if (a.vd[v]) dv.insert(v);
+    for (int e = 0; e < (int)a.E.size(); ++e) if (a.ed[e]) de.insert(e);
+    for (int f = 0; f < (int)a.F.size(); ++f) if (a.fd[f]) df.insert(f);
+    for (int c = 0; c < (int)a.C.size(); ++c) if (a.cd[c]) dc.insert(c);
+    Snap a2 = a;   // closure() looks at flags of a: mark progressively
+    auto mark = [&](char k, int x) { closure(a2, k, x, dv, de, df, dc);
+        for (int v : dv) a2.vd[v] = 1; for (int e : de) a2.ed[e] = 1; for (int f : df) a2.fd[f] = 1; for (int c : dc) a2.cd[c] = 1; };
+    // closure() skips already-flagged supers; recompute from the ORIGINAL liveness: do it on a copy whose flags only grow
+    a2 = a;
+    for (int x : g["V"]) if (!a.vd[x]) { Snap t = a; closure(t, 'V', x, dv, de, df, dc); }
+    for (int x : g["E"]) if (!a.ed[x]) { Snap t = a; closure(t, 'E', x, dv, de, df, dc); }
+    for (int x : g["F"]) if (!a.fd[x]) { Snap t = a; closure(t, 'F', x, dv, de, df, dc); }
+    for (int x : g["C"]) if (!a.cd[x]) { Snap t = a; closure(t, 'C', x, dv, de, df, dc); }
+    (void)mark;
+    if (pm) {
+        // exactly the faces bounding no (surviving) cell, then the edges of valence 0, then the vertices of valence 0
+        for (int f = 0; f < (int)a.F.size(); ++f) if (!df.count(f)) {
+            bool used = false;
+            for (int c = 0; c < (int)a.C.size(); ++c) if (!dc.count(c)) for (int hf : a.C[c]) if (hf / 2 == f) used = true;
+            if (!used) df.insert(f);
+        }
+        for (int e = 0; e < (int)a.E.size(); ++e) if (!de.count(e)) {
+            bool used = false;
+            for (int f = 0; f < (int)a.F.size(); ++f) if (!df.count(f)) for (int h : a.F[f]) if (h / 2 == e) used = true;
+            if (!used) de.insert(e);
+        }
+        for (int v = 0; v < a.nv; ++v) if (!dv.count(v)) {
+            bool used = false;
+            for (int e = 0; e < (int)a.E.size(); ++e) if (!de.count(e) && (a.E[e].first == v || a.E[e].second == v)) used = true;
+            if (!used) dv.insert(v);
+        }
+    }
+    Snap al = a; std::fill(al.vd.begin(), al.vd.end(), 0); std::fill(al.ed.begin(), al.ed.end(), 0); std::fill(al.fd.begin(), al.fd.end(), 0); std::fill(al.cd.begin(), al.cd.end(), 0);
+    if (!(logical(al, dv, de, df, dc) == logical(b))) out.fail("C04", std::string("StatusAttrib::garbage_collection(") + (pm ? "manifold" : "plain") + "): the resulting mesh is not (logical mesh minus marks-closure" + (pm ? " minus unbounded faces/edges/vertices)" : ")"));
+    if (b.needs_gc) out.fail("C04", "needs_garbage_collection() after StatusAttrib::garbage_collection");
+    if (b.deferred != a.deferred) out.fail("C04", "StatusAttrib::garbage_collection did not restore the deferred-deletion mode");
+    // tracked handles
+    auto parse = [&](const std::string &key) { std::vector<int> r; size_t p = trk.find(key + ":"); if (p == std::string::npos) return r;
+        size_t q = trk.find('|', p); std::istringstream is(trk.substr(p + key.size() + 1, q == std::string::npos ? std::string::npos : q - p - key.size() - 1));
+        std::string t; while (is >> t) r.push_back(t == "-" ? -1 : std::stoi(t)); return r; };
+    auto tv = parse("v"), the = parse("he"), thf = parse("hf"), tc = parse("c");
+    for (size_t i = 0; i < g["TV"].size() && i < tv.size(); ++i) { int o = g["TV"][i]; bool gone = dv.count(o);
+        if (gone ? tv[i] != -1 : (tv[i] < 0 || tv[i] >= b.nv || b.vid[tv[i]] != a.vid[o])) out.fail("C04", "tracked vertex handle " + std::to_string(o) + " -> " + std::to_string(tv[i]) + " does not designate the same vertex / is not invalidated"); }
+    for (size_t i = 0; i < g["THE"].size() && i < the.size(); ++i) { int o = g["THE"][i]; bool gone = de.count(o / 2);
+        if (gone ? the[i] != -1 : (the[i] < 0 || the[i] >= 2 * (int)b.E.size() || he_id(b, the[i]) != he_id(a, o))) out.fail("C04", "tracked halfedge handle " + std::to_string(o) + " -> " + std::to_string(the[i]) + " does not designate the same halfedge / is not invalidated"); }
+    for (size_t i = 0; i < g["THF"].size() && i < thf.size(); ++i) { int o = g["THF"][i]; bool gone = df.count(o / 2);
+        if (gone ? thf[i] != -1 : (thf[i] < 0 || thf[i] >= 2 * (int)b.F.size() || hf_id(b, thf[i]) != hf_id(a, o))) out.fail("C04", "tracked halfface handle " + std::to_string(o) + " -> " + std::to_string(thf[i]) + " does not designate the same halfface / is not invalidated"); }
+    for (size_t i = 0; i < g["TC"].size() && i < tc.size(); ++i) { int o = g["TC"][i]; bool gone = dc.count(o);
+        bool same = !gone && tc[i] >= 0 && tc[i] < (int)b.C.size();
+        if (same) { std::vector<std::vector<std::pair<int,int>>> x, y; for (int hf : a.C[o]) x.push_back(hf_id(a, hf)); for (int hf : b.C[tc[i]]) y.push_back(hf_id(b, hf)); same = x == y; }
+        if (gone ? tc[i] != -1 : !same) out.fail("C04", "tracked cell handle " + std::to_string(o) + " -> " + std::to_string(tc[i]) + " does not designate the same cell / is not invalidated"); }
+}
+
 // ---------------------------------------------------------------- C17: swaps are pure relabelings
 inline int sw1(int a, int b, int x) { return x == a ? b : x == b ? a : x; }
 inline int sw2(int a, int b, int x) { return x < 0 ? x : 2 * sw1(a, b, x / 2) + (x & 1); }
